@@ -26,15 +26,16 @@ def desc_byte(k, rel):
 def run(tier):
     rep = Report('C06', tier)
     prog = load_core('systemd')
-    rep.rule('R06.1', 'descriptor loop: index from 0 step 1, descriptor k read at 34+14k, trip count bounded by the MTU-derived capacity', floor=3)
+    rep.rule('R06.1', 'descriptor loop: the k-th iteration reads descriptor k at 34+14k inside the frame, trip count bounded by the MTU-derived capacity', floor=3)
     rep.rule('R06.2', 'per descriptor: exactly one pause with this descriptor\'s pause byte, then exactly one Probe/Train', floor=4)
     rep.rule('R06.3', 'Probe/Train: Ethernet source/destination = descriptor source/destination, kind as requested, real source = own MAC', floor=20)
     rep.rule('R06.4', 'ACK: sent exactly in the last iteration, after the probe, sequence = the Emit\'s, Ethernet destination = apparent mapper, real destination = mapper', floor=8)
+    rep.rule('R06.5', 'an Emit whose sender may be the active mapper is executed: every path through the Emit cell walks the descriptors (except out-of-memory / sender known not to be the mapper)', floor=2)
     for mtu_ok in ([True] if tier == 'quick' else [True, False]):
         fs = FrameSetup(prog, mtu_ok=mtu_ok)
         fs.keep_iter_states = True
         rc0 = ('sym', 'rc.send_frame.sendProbeMsg.0', -(1 << 31), (1 << 31) - 1)
-        from .frame_common import TOS, OPC
+        from .frame_common import TOS, OPC, KNOWN
         res, obs, stats = run_regions(fs, regions=['topo.emit'], jobs=1, tracked=(TOS, OPC, rc0))
         tag = '' if mtu_ok else '|mtu-fallback'
         loops = stats['topo.emit']['loops']
@@ -45,8 +46,8 @@ def run(tier):
         k = ('sym', 'iter:' + lid[0], 0, INF)
         ind = info['induction']
         fnf = 'lltdResponder/lltdBlock.c'
-        steps = sorted(ind.values())
-        rep.check(1 in steps, 'R06.1', 'loop|index-step' + tag, 'descriptor loop has no index advancing by 1 per iteration (induction %s)' % ind, function='parseEmit', file=fnf)
+        # (no demand on how the loop counts - up, down, by pointer: descriptor k is located through the iteration number k,
+        #  and `last` is decided from the loop condition after the iteration)
         fail_obligations(rep, obs, 'R06.1', kinds=('bounds',), only_fns=('parseEmit',))
         iters = info['iter_states'] or []
         if not iters:
@@ -62,6 +63,27 @@ def run(tier):
             rep.check(okb, 'R06.1', 'loop|trip-count' + tag,
                       'an iteration with index %s is executed although a frame can carry only floor((MTU-34)/14) = %s descriptors' % (st.dom(k), st.dom(cap)),
                       function='parseEmit', file=fnf, sample={'iteration_index': repr(st.dom(k)), 'capacity': repr(st.dom(cap))} if len(rep.samples) < 4 else None)
+        # an Emit is executed whenever its sender may be the active mapper: every path through the Emit cell reaches the
+        # descriptor loop, unless the responder is out of memory or knows the sender is NOT the active mapper
+        # (a mapper is recorded and its real address differs from the Emit's real source)
+        nreach = 0
+        for st, ret in res['topo.emit']:
+            reached = any(e[0] == 'loop' and e[1] == lid[0] for e in st.trace)
+            if reached:
+                nreach += 1
+                rep.ok('R06.5')
+                continue
+            if any(e[0] == 'malloc-failed' for e in st.trace):
+                rep.ok('R06.5')
+                continue
+            foreign = st.tags.get('pred:M') is False and st.dom(KNOWN).lo >= 1
+            rep.check(foreign, 'R06.5', 'emit|dropped' + tag,
+                      'a path through the Emit cell returns without walking the descriptors although the sender may be the active mapper '
+                      '(mapper recorded: %s; real source equals recorded mapper: %s; path conditions: %s)'
+                      % (st.dom(KNOWN), {True: 'yes', False: 'no', None: 'not tested'}[st.tags.get('pred:M')], [c for c, _ in st.path][-3:]),
+                      function='parseEmit', file=fnf)
+        if not nreach:
+            rep.fail('R06.5', 'emit|never' + tag, 'no path through the Emit cell walks the descriptors', function='parseEmit', file=fnf)
         rep.analysed.update({'iteration_variants': len(iters), 'induction': {str(a): b for a, b in ind.items()}})
     return finish(rep, 'proof',
                   'The Emit cell is interpreted with the descriptor loop summarised by one symbolic iteration k (affine closed forms verified inductively). '
@@ -110,13 +132,12 @@ def check_iteration(rep, fs, st, trace, k, tag, kind):
                       'Probe/Train Ethernet destination byte %d is %s, not the descriptor\'s destination address' % (i, short(st.canon(p.byte(i)))), function='sendProbeMsg', file=fnf)
             rep.check(own_mac_byte(st, p.byte(24 + i), i), 'R06.3', 'iter|real-src' + tag, 'Probe/Train real source is not the own address', function='sendProbeMsg', file=fnf)
     # ACK condition
-    nd_obj = [oid for oid in st.objs if oid.startswith('L:parseEmit.') and oid.endswith('numDescs')]
-    last = notlast = None
-    if nd_obj:
-        nd = st.canon(mem.load_scalar(st, st.objs[nd_obj[0]], ZERO, fs.ix.parse_type('int')))
-        lastv = term_of_lin(lin_of(('add', nd, C(-1))))
-        last = st.prove_le(k, lastv) and st.prove_le(lastv, k)
-        notlast = st.prove_lt(k, lastv) or st.known_neq(k, lastv)
+    nxt = [v for t_, v in st.tags.items() if str(t_).startswith('next:parseEmit#')]
+    if kind in ('break', 'return'):
+        last, notlast = True, False
+    else:
+        last = bool(nxt) and nxt[0] == 'F'         # the loop condition is false after this iteration
+        notlast = bool(nxt) and nxt[0] == 'T'      # ... true: another descriptor follows
     sent_ok = len(probes) == 1
     if acks:
         rep.check(bool(last), 'R06.4', 'ack|only-last' + tag, 'an ACK is sent in an iteration that is not known to be the last descriptor', function='sendProbeMsg', file=fnf)
